@@ -969,6 +969,10 @@ func ParseBranchStmt(p *ParserZH) *syntax.BranchStmt {
 			return stmt
 		}
 	}
+	// meet EOF right after 如果: the (required) if-branch is missing
+	if hState == stateInit {
+		panic(p.getInvalidSyntaxPeek())
+	}
 	return stmt
 }
 
